@@ -215,3 +215,28 @@ Proof.
   destruct (down_pass_binary (call_map c) (k_weights c) k (k_sbc c) st t B ND C R W) as [st' E].
   rewrite E. reflexivity.
 Qed.
+
+(* the minimum number of changes is a property of the unrooted tree (no reference to Fitch) *)
+Lemma swap_eq_leaves_ok n ls t t' : swap_eq t t' -> (leaves_ok n ls t <-> leaves_ok n ls t').
+Proof. induction 1; simpl; tauto. Qed.
+
+Lemma reroot_eq_leaves_ok n ls t t' : reroot_eq t t' -> (leaves_ok n ls t <-> leaves_ok n ls t').
+Proof.
+  induction 1.
+  - apply swap_eq_leaves_ok. assumption.
+  - simpl. tauto.
+  - tauto.
+  - tauto.
+Qed.
+
+Lemma min_changes_reroot n ls t t' : reroot_eq t t' -> binary t -> leaves_ok n ls t ->
+  forall a, fits ls a t -> exists a', fits ls a' t' /\ in_range (Z.of_nat n) a' /\ changes a' <= changes a.
+Proof.
+  intros RR B L a F.
+  assert (B' : binary t') by (apply (reroot_eq_binary t t' RR); exact B).
+  assert (L' : leaves_ok n ls t') by (apply (reroot_eq_leaves_ok n ls t t' RR); exact L).
+  destruct (fitch_is_minimum_l n ls t B L) as [LB _].
+  destruct (fitch_is_minimum_l n ls t' B' L') as [_ [a' [F' [R' C']]]].
+  exists a'. split; [exact F'|]. split; [exact R'|].
+  specialize (LB a F). rewrite (reroot_eq_score ls t t' RR) in LB. lia.
+Qed.
